@@ -672,7 +672,7 @@ MESH_MODES = ('infile', 'infile', 'ascii', 'binary')
 class DataStoreMachine(StoreMachine):
     PROP = 'C01'
     NAMES = ('a', 'run.1', 'run.2')      # two names share the text before their first dot
-    OPS = ('NEW', 'MUTATE', 'W', 'R', 'CYCLE', 'SHIPPED', 'CRASH', 'PERMUTE')
+    OPS = ('NEW', 'MUTATE', 'W', 'R', 'CYCLE', 'SHIPPED', 'CRASH', 'PERMUTE', 'FOREIGN')
     STEP_BUDGET = 6000000
     STRIP_FIRST = True
     EMPTY_IS_ABSENT = True
@@ -713,6 +713,8 @@ class DataStoreMachine(StoreMachine):
                 ch = [R(3), R(big), R(big)]
             elif kd == 'SHIPPED':
                 ch = [R(3), R(6)]
+            elif kd == 'FOREIGN':
+                ch = [R(3), R(3), R(8)]
             else:
                 ch = [R(3)]
             fault = gen_fault(rng, knobs, kd == 'W') if kd in ('W', 'R') else None
@@ -921,6 +923,8 @@ class DataStoreMachine(StoreMachine):
             self.do_cycle(self.pick_name(ch[0]))
         elif kind == 'SHIPPED':
             self.shipped(ch)
+        elif kind == 'FOREIGN':
+            self.foreign(ch)
         elif kind == 'CRASH':
             self.do_crash()
         else:
@@ -1045,6 +1049,53 @@ class DataStoreMachine(StoreMachine):
                 break
         ctx.fp.append(('P',))
         ctx.digest.add('PERMUTE', dat._sections)
+
+    def foreign(self, ch):
+        """Another party re-emits an acknowledged model Fortran style, value for value: upper-case
+        (or D) exponent letters, lines padded to 80 columns or stripped of trailing blanks, CR-LF
+        line ends.  The model it carries is the same; the reader must give the same object, and
+        from the first re-write on the fixpoint."""
+        ctx = self.ctx
+        src = self.pick_name(ch[0])
+        r = self.ref.get(src)
+        if r is None or r['state'] != 'ack' or r['cfg'].get('mesh') == 'binary':
+            ctx.stats['skip_FOREIGN'] += 1
+            return
+        style = ch[2] % 8
+        letter = 'D' if style & 1 else 'E'
+        pad = style & 2
+        crlf = style & 4
+        cfg = dict(r['cfg'])
+        cfg['foreign'] = True
+        cfg['fortran'] = True          # the documented reader for Fortran-written numbers
+        dst = self.NAMES[ch[1] % len(self.NAMES)]
+        if dst == src:
+            ctx.stats['skip_FOREIGN'] += 1
+            return
+        num = re.compile(r'(?<=[0-9])e(?=[+-][0-9]{2})')
+        for f_src, f_dst in zip(self.files_of(src, cfg), self.files_of(dst, cfg)):
+            data = ctx.fs.files.get(f_src)
+            if data is None:
+                ctx.stats['skip_FOREIGN'] += 1
+                return
+            out = []
+            for k, line in enumerate(data.decode('utf-8').replace('\r\n', '\n').split('\n')):
+                if not (k == 0 and f_src.endswith('.dat')):          # not the title line
+                    line = num.sub(letter, line)
+                line = line.ljust(80) if (pad and line.strip()) else line.rstrip(' ') \
+                    if not pad else line
+                out.append(line)
+            ctx.fs.put(f_dst, ('\r\n' if crlf else '\n').join(out).encode())
+        for stale in ('.pdat', '.MESH', '.MESHA', '.MESHB'):
+            if dst + stale not in self.files_of(dst, cfg):
+                ctx.fs.files.pop(dst + stale, None)
+        self.ref[dst] = {'state': 'ack', 'snap': r['snap'], 'cfg': cfg,
+                         'files': self.files_of(dst, cfg), 'foreign': True}
+        ctx.state_changes += 1
+        ctx.probes['foreign_fortran_style_%s%s%s' % (letter, 'p' if pad else 's',
+                                                      'c' if crlf else '')] += 1
+        ctx.fp.append(('F', style))
+        ctx.digest.add('FOREIGN', src, dst, style)
 
     def shipped(self, ch):
         """One of the real data files under tests/data, with its companions, put into the
